@@ -87,7 +87,7 @@ inductive Stmt
   | at (h : Nat) (p : Int) | exp (h : Nat) | zero (h : Nat)
   | fwd (h : Nat) (take : Int) | fwd2 (h : Nat) (take : Int) | itat (h : Nat) (p : Int) (take : Int)
   | back (h : Nat) (take : Int) | back2 (h : Nat) (take : Int) | nd (h : Nat) | astr (h : Nat)
-  | mk (h : Nat) (kind : String) | nx (it : Nat) (n : Int) | mkseq (h : Nat) | run (q : Nat) (take : Int)
+  | mk (h : Nat) (kind : String) | nx (it : Nat) (n : Int) | mkseq (h : Nat) | mkseqb (h : Nat) | run (q : Nat) (take : Int)
   | str (h : Nat) | exact (h : Nat) | fmt (h : Nat) (dir : String)
   | find (op : String) (h : Nat) (pat : List Int) (n : Int)
   | pr (h : Nat) (pos : List PTok) (o : OptSet)
@@ -119,6 +119,7 @@ def parseStmt (s : String) : Option Stmt :=
   | ["mk", h, k] => do pure (.mk (← h.toNat?) k)
   | ["nx", i, n] => do pure (.nx (← i.toNat?) (← n.toInt?))
   | ["mkseq", h] => do pure (.mkseq (← h.toNat?))
+  | ["mkseqb", h] => do pure (.mkseqb (← h.toNat?))
   | ["mkf", h, p] => do pure (.mkf (← h.toNat?) (← parsePat p) false)
   | ["mkfr", h, p] => do pure (.mkf (← h.toNat?) (← parsePat p) true)
   | ["nxf", i, n] => do pure (.nxf (← i.toNat?) (← n.toInt?))
